@@ -525,6 +525,84 @@ def case_two_boards(props, when, declarer_a=1, declarer_b=2):
 
 
 # --------------------------------------------------------------------------
+# H3c: a deep copy of a board in progress (what a look-ahead player makes) is a board of its own
+# --------------------------------------------------------------------------
+def case_clone(props, declarer):
+    """Board A (real constructor, symbolic deal) gets its opening lead; B = copy.deepcopy(A) (the class's own __deepcopy__ is
+    interpreted if it has one); the trick is completed on B with symbolic cards held by the seats on turn.  A must not
+    notice: every observable of A stays what it was when the copy was taken, and B has completed exactly one trick."""
+    import copy
+    from bridge_env import Hands, Pair, Player, PlayingPhaseWithHands
+
+    def path(eng):
+        eng.summarize.add(PlayingPhaseWithHands.calc_highest)
+        c, dom, v = sym_contract()
+        eng.assume(dom)
+        eng.assume(v['dcl'] == declarer)
+        c.attrs['declarer'] = Player(declarer)
+        hs = {p: cardmod.fresh_cardset(f'hand{p}') for p in range(1, 5)}
+        for i in range(52):
+            bits = [hs[p].bits[i] for p in range(1, 5)]
+            eng.assume(z3.And([z3.Not(z3.And(bits[a], bits[b])) for a in range(4) for b in range(a + 1, 4)]))
+        for p in range(1, 5):
+            eng.assume(z3.And(hs[p].axioms(), hs[p].n == 13))
+        deal = {p: hs[p].copy() for p in range(1, 5)}
+        plays = [(z3.Int(f'p{k}_rank'), z3.Int(f'p{k}_suit')) for k in range(4)]
+        lead = declarer % 4 + 1
+        seats = [(lead - 1 + k) % 4 + 1 for k in range(4)]
+        for k, (r, s_) in enumerate(plays):
+            eng.assume(z3.And(2 <= r, r <= 14, 1 <= s_, s_ <= 4))
+            ci = cidx(r, s_)
+            eng.assume(z3.Or([z3.And(ci == i, deal[seats[k]].bits[i]) for i in range(52)]))     # held by the seat on turn
+
+        def cex(m):
+            ev = lambda z: hx.mval(m, z)
+            return {'kind': 'clone', 'props': sorted(props),
+                    'contract': {'bid': ev(v['b']), 'x': ev(v['x']), 'xx': ev(v['xx']), 'vul': ev(v['vul']), 'declarer': declarer},
+                    'deal': {str(p): [i for i in range(52) if ev(deal[p].bits[i]) is True] for p in range(1, 5)},
+                    'plays': [[(ev(s_) - 1) * 13 + ev(r) - 2, seats[k]] for k, (r, s_) in enumerate(plays)]}
+        chk = []
+
+        def add(tags, label, cond):
+            for q in sorted(tags & props):
+                chk.append((f'{q}: {label}', cond))
+        try:
+            A = eng.construct(PlayingPhaseWithHands, [c, SObj(Hands, {SEATS[p]: hs[p] for p in range(1, 5)})], {})
+            eng.call_function(PlayingPhaseWithHands.play_card_by_player, [A, cardmod.sym_card(*plays[0]), Player(seats[0])], {})
+            B = eng.call(copy.deepcopy, [A], {})
+        except symx.RaiseEx as e:
+            return dict(outcome='raise', cex=cex, checks=[(f'{q}: a board that has been led to can be deep-copied ({e.exc!r})', False) for q in sorted(props)])
+        if not isinstance(B, SObj) or B is A:
+            return dict(outcome='raise', cex=cex, checks=[(f'{q}: the deep copy is a board object of its own', False) for q in sorted(props)])
+        preA = snapshot(read_state(A, dict(b=v['b'])))
+        fr = symx.Frame(eng, PlayingPhaseWithHands.play_card_by_player, {})
+        histA0 = len(list(fr.getattr(A.attrs['playing_history'], 'history')))
+        for k in (1, 2, 3):
+            try:
+                eng.call_function(PlayingPhaseWithHands.play_card_by_player, [B, cardmod.sym_card(*plays[k]), Player(seats[k])], {})
+            except symx.RaiseEx as e:
+                add({'C04', 'C05'}, f'the copy accepts card {k + 1} of the trick from the seat on turn that holds it ({type(e.exc).__name__})', False)
+                return dict(outcome='clone refused', checks=chk, cex=cex)
+            postA = read_state(A, dict(b=v['b']))
+            same = [postA['L'] == preA['L'], postA['A'] == preA['A'], postA['T'] == preA['T'], z3.BoolVal(postA['t'] == preA['t']),
+                    postA['ns'] == preA['ns'], postA['ew'] == preA['ew'], bits_eq(postA['used'], preA['used']),
+                    z3.BoolVal(len(list(fr.getattr(A.attrs['playing_history'], 'history'))) == histA0)]
+            same += [bits_eq(postA['hands'][p], preA['hands'][p]) for p in range(1, 5)]
+            add({'C04', 'C05'}, f'after card {k + 1} on the copy the original board is unchanged (turn, table, hands, played cards, counts, history)',
+                z3.And(same))
+        postB = read_state(B, dict(b=v['b']))
+        add({'C04'}, 'the copy has completed exactly one trick: trick 2, empty table, one recorded trick, counts total 1',
+            z3.And(postB['T'] == 2, z3.BoolVal(postB['t'] == 0), postB['ns'] + postB['ew'] == 1,
+                   z3.BoolVal(len(list(fr.getattr(B.attrs['playing_history'], 'history'))) == 1)))
+        add({'C05'}, 'the copy: remaining hands and played cards partition the deal',
+            z3.And([postB['used'].bits[i] == z3.Or([cidx(*plays[j]) == i for j in range(4)]) for i in range(52)] +
+                   [postB['hands'][p].bits[i] == z3.And(deal[p].bits[i], z3.Not(z3.Or([cidx(*plays[j]) == i for j in range(4)])))
+                    for p in range(1, 5) for i in range(52)]))
+        return dict(outcome='cloned', checks=chk, cex=cex)
+    return hx.explore_case(path, dict(max_paths=20000))
+
+
+# --------------------------------------------------------------------------
 # H2: BMC from the constructor, symbolic deal, first n plays by the seat on turn (+ one arbitrary attempt)
 # --------------------------------------------------------------------------
 def case_bmc(props, n, declarer):
